@@ -15,14 +15,15 @@ RULE = ("random problems with <= 6 variables and dyadic biases (BQM via sample/s
         "keep_penalty_variables / discard_unsatisfied, scalar / bias_range / poly_range / ignored_terms, fixed_variables, initial states, label pools "
         "that are sortable or not); every layer's input and output "
         "is recorded; a case is non-trivial when the problem has at least one variable; distinct by canonical JSON of the case")
-TRUSTED = ["model: coq/theories/Model/Solve.v, ChkC07.v, Comb.v, Poly.v, HPoly.v, Samples.v (hand written, tied by this correspondence)",
+TRUSTED = ["translator translators/polyscale_rule.py (fail-closed ast translation of BinaryPolynomial.normalize/scale and PolyScaleComposite.sample_poly into Gen/Gen_PolyScale.v: initial extrema, length tests, update expressions, inv_scalar formula, scale factor, ratio scalar, un-scaling)",
+           "model: coq/theories/Model/Solve.v, ChkC07.v, Comb.v, Poly.v, HPoly.v, Samples.v (hand written, tied by this correspondence)",
            "harness recorders Rec/PolyRec/IsingOnly/QuboOnly in harness/w_c07.py (snapshot what each layer received and returned)",
            "float arithmetic of the implementation is exact on the generated dyadic data (normalisation factors are kept powers of two by the generator)"]
 ASSUMPTIONS = ["the coefficients a problem object reports define the submitted problem (C01)",
                "IEEE-754 arithmetic is exact on the small dyadic coefficients generated",
                "make_quadratic's reduction itself is C15's subject; here only the energies/labels of the returned sample set are decided against the submitted polynomial"]
 PARTIAL = ["RandomSampler / SimulatedAnnealingSampler / IdentitySampler('random'): WHICH rows the PRNG / annealing schedule produces is not modelled; everything else is (from_samples_bqm on the rows they returned, the conversion back from Ising with the offset, row count and the given states as prefix: C07_search_agnostic_energy, C07_sa_search_agnostic_energy, C07_identity_random_prefix) and is compared exactly on every returned set",
-           "TruncateComposite / PolyTruncateComposite with sorted_by='energy': np.argsort's order among equal energies is not pinned; the energy column is compared exactly with the model and the rows as a sub-multiset of the child's (energy,row) pairs",
+           "TruncateComposite / PolyTruncateComposite with sorted_by='energy': SampleSet.slice calls np.argsort with the default (unstable) kind - the source requests kind='stable' only in SampleSet.data(index=True), which nothing in scope uses - so the order among equal energies is deliberately NOT modelled; C07_truncate_any_ascending_order proves that every ascending ordering has the model's energy column and keeps only the child's pairs, which is exactly what the correspondence compares (energy column exactly, rows as a sub-multiset of the child's (energy,row) pairs)",
            "IdentitySampler's documented rejections (ValueError) are compared with the model's None; any other exception of a valid stack is a violation",
            "ExactCQMSolver: only hard constraints are generated; soft-constraint energies and violation details belong to C08 (the feasibility column is tied to C08's definition by C07_exact_cqm_feasible_column)",
            "StructureComposite's 'child untouched on rejection' is stated on the functional model as independence from the child and observed through the recorder below the composite (zero calls)"]
